@@ -641,3 +641,51 @@ X.Interp.spec_exists = _spec_exists
 X.Interp.spec_unchanged = _spec_unchanged
 X.Interp.spec_isinf = _spec_isinf
 X.Interp.deep_eq = _deep_eq
+
+
+def _spec_first(self, e, fr):
+    v = self.ev(e.args[0], fr)
+    if isinstance(v, SOpaque) and "first" in v.meta:
+        return v.meta["first"]
+    raise Unsupported("first() of %r" % (v,))
+
+
+def _spec_size(self, e, fr):
+    v = self.ev(e.args[0], fr)
+    if isinstance(v, SOpaque) and "size" in v.meta:
+        return v.meta["size"]
+    raise Unsupported("size() of %r" % (v,))
+
+
+def _spec_inf(self, e, fr):
+    return SExt(True, z3.RealVal(0))
+
+
+def _spec_sqrt(self, e, fr):
+    return self.ctx.models.ext["numpy.sqrt"](self.ctx.models, self, [self.ev(e.args[0], fr)], {}, fr, e)
+
+
+def _spec_log(self, e, fr):
+    return self.ctx.models.ext["numpy.log"](self.ctx.models, self, [self.ev(e.args[0], fr)], {}, fr, e)
+
+
+def _spec_close(self, e, fr):
+    # approximate equality for the concrete (float) interpreter; exact equality over the reals
+    a = self.ev(e.args[0], fr)
+    b = self.ev(e.args[1], fr)
+    return self.run.eq(a, b)
+
+
+def _spec_meta(self, e, fr):
+    v = self.ev(e.args[0], fr)
+    k = e.args[1].value
+    return v.meta[k]
+
+
+X.Interp.spec_first = _spec_first
+X.Interp.spec_size = _spec_size
+X.Interp.spec_inf = _spec_inf
+X.Interp.spec_sqrt = _spec_sqrt
+X.Interp.spec_log = _spec_log
+X.Interp.spec_close = _spec_close
+X.Interp.spec_meta = _spec_meta
